@@ -311,7 +311,7 @@ fn main() {
             }
         }
         // 2. every op shape
-        let reps = if tiny_subject { run.tier.pick(1, 4) } else { 1 };
+        let reps = if tiny_subject { run.tier.pick(1, 24) } else { run.tier.pick(1, 3) };
         for sh in &all_shapes {
             if !tiny_subject && quick && sh.len() == 4 && rng.chance(2, 3) {
                 continue;
